@@ -283,6 +283,15 @@ pub fn init_date_prototype(interp: &mut Interpreter) {
     interp.register_method(&proto, "setMinutes", date_set_minutes, 3);
     interp.register_method(&proto, "setSeconds", date_set_seconds, 2);
     interp.register_method(&proto, "setMilliseconds", date_set_milliseconds, 1);
+    // Local time is UTC in this interpreter: the UTC setters are the local ones
+    interp.register_method(&proto, "setUTCFullYear", date_set_full_year, 3);
+    interp.register_method(&proto, "setUTCMonth", date_set_month, 2);
+    interp.register_method(&proto, "setUTCDate", date_set_date, 1);
+    interp.register_method(&proto, "setUTCHours", date_set_hours, 4);
+    interp.register_method(&proto, "setUTCMinutes", date_set_minutes, 3);
+    interp.register_method(&proto, "setUTCSeconds", date_set_seconds, 2);
+    interp.register_method(&proto, "setUTCMilliseconds", date_set_milliseconds, 1);
+    interp.register_method(&proto, "getTimezoneOffset", date_get_timezone_offset, 0);
 
     // Conversion methods
     interp.register_method(&proto, "toISOString", date_to_iso_string, 0);
@@ -442,6 +451,20 @@ pub fn date_get_time(
     Ok(Guarded::unguarded(JsValue::Number(get_date_timestamp(
         &this,
     )?)))
+}
+
+/// Date.prototype.getTimezoneOffset: local time is UTC (NaN for an invalid date)
+pub fn date_get_timezone_offset(
+    _interp: &mut Interpreter,
+    this: JsValue,
+    _args: &[JsValue],
+) -> Result<Guarded, JsError> {
+    let ts = get_date_timestamp(&this)?;
+    Ok(Guarded::unguarded(JsValue::Number(if ts.is_nan() {
+        f64::NAN
+    } else {
+        0.0
+    })))
 }
 
 pub fn date_get_full_year(
